@@ -10,7 +10,7 @@ import sys
 
 rnd, wt, out = int(sys.argv[1]), sys.argv[2], sys.argv[3]
 os.makedirs(out, exist_ok=True)
-CLAIMED = ('C02', 'C03', 'C04', 'C05', 'C06', 'C08', 'C09', 'C10', 'C13', 'C15', 'C16', 'C17', 'C18', 'C19')
+CLAIMED = ('C02', 'C03', 'C04', 'C05', 'C06', 'C08', 'C09', 'C10', 'C13', 'C14', 'C15', 'C16', 'C17', 'C18', 'C19')
 excl = {}
 for d in glob.glob('/verif/seeded/*/patch.diff'):
     pid = d.split('/')[-2][:3]
